@@ -23,8 +23,17 @@ for name in sorted(os.listdir(os.path.join(VERIF, "seeded"))):
     meta = json.load(open(os.path.join(d, "meta.json")))
     tmp = tempfile.mkdtemp(prefix=f"simflox-seeded-{name[:12]}-")
     try:
-        ar = subprocess.run(f"git -C /repo archive {meta['applies_to_flox_commit']} | tar -x -C {tmp}", shell=True)
-        p = subprocess.run(["patch", "-p1", "-s", "-i", os.path.join(d, "patch.diff")], cwd=tmp, capture_output=True, text=True)
+        # prefer the current tree (later fixes included, so a catch is due to the change alone); fall back to
+        # the commit the change was written against when the patch no longer applies
+        for base in ("HEAD", meta["applies_to_flox_commit"]):
+            shutil.rmtree(tmp, ignore_errors=True)
+            os.makedirs(tmp)
+            ar = subprocess.run(f"git -C /repo archive {base} | tar -x -C {tmp}", shell=True)
+            p = subprocess.run(["patch", "-p1", "-s", "--no-backup-if-mismatch", "-F0", "-i", os.path.join(d, "patch.diff")], cwd=tmp, capture_output=True, text=True)
+            if not ar.returncode and not p.returncode:
+                break
+        if os.path.exists("/repo/flox/_version.py"):
+            shutil.copy("/repo/flox/_version.py", os.path.join(tmp, "flox"))
         if ar.returncode or p.returncode:
             rows.append((name, "PATCH-FAILED", ""))
             continue
@@ -34,7 +43,7 @@ for name in sorted(os.listdir(os.path.join(VERIF, "seeded"))):
                    "VERIF_DET_RATE": "0"}
             r = subprocess.run([os.path.join(VERIF, "check"), chk, "--tier", "quick"], capture_output=True, text=True, env=env, cwd=VERIF)
             mini = next((l for l in r.stdout.splitlines() if l.startswith("minimised")), "")
-            rows.append((name, f"{chk}:{'CAUGHT' if r.returncode == 1 else 'rc=' + str(r.returncode)}", mini[:140]))
+            rows.append((name, f"{chk}:{'CAUGHT' if r.returncode == 1 else 'rc=' + str(r.returncode)}@{base[:7]}", mini[:140]))
             print(rows[-1])
             sys.stdout.flush()
     finally:
